@@ -292,22 +292,34 @@ def parse_datetime(t, s):
     return DTV(t, y, mo, d, h, mi, sec, tz)
 
 def dt_instant(v, tz_override=None):
-    """seconds on the timeline (Fraction); missing fields take the reference values 1972-12-31T00:00:00 (2nd ed. 3.2.7.4 / E2-...)"""
+    """seconds on the timeline (Fraction).  date and the g-types are ordered by their *starting instants* (2nd ed. 3.2.9-3.2.14):
+    missing low fields are 01 / 00:00:00; the recurring types live "in an arbitrary leap year" / "month that has 31 days" (1972-01)."""
     y = v.y if v.y is not None else 1972
-    mo = v.mo if v.mo is not None else 12
-    d = v.d if v.d is not None else (31 if v.mo is None else min(31, month_len(y, mo)))
+    mo = v.mo if v.mo is not None else 1
+    d = v.d if v.d is not None else 1
     h = v.h or 0; mi = v.mi or 0; s = v.s if v.s is not None else Decimal(0)
     ya = y if y > 0 else y + 1
     tz = v.tz if tz_override is None else tz_override
     return Fraction(days_from_civil(ya, mo, d)) * 86400 + h * 3600 + mi * 60 + Fraction(s) - (tz or 0) * 60
 
 def _near_era_boundary(v):
-    return v.y is not None and v.y < 0 and ((v.mo == 12 and v.d in (30, 31)) or (v.mo == 1 and v.d in (1, 2)) or (v.mo == 2 and v.d == 28) or (v.mo == 3 and v.d == 1))
+    """zones where 1.0 (no year 0) and 1.1 (year 0) arithmetic differ: the step between -0001 and 0001, and February's end in BCE years"""
+    if v.y is None: return False
+    if v.y == -1 and v.mo == 12 and v.d in (30, 31, None): return True
+    if v.y == -1 and v.mo is None: return True                                   # gYear -0001
+    if v.y == 1 and (v.mo in (1, None)) and v.d in (1, 2, None): return True
+    return v.y < 0 and ((v.mo == 2 and v.d in (28, None)) or (v.mo == 3 and v.d in (1, None)))
 
 def cmp_datetime(a, b):
     t = a.t
-    if t in ('gYearMonth', 'gYear', 'gMonthDay', 'gDay', 'gMonth'):
-        if a.tz != b.tz: raise Unsure('g-type-mixed-timezones')
+    if t in ('gMonthDay', 'gDay', 'gMonth') and a.tz != b.tz:
+        # recurring periods "in an arbitrary year/month": only sure while no starting instant is pushed out of that year/month
+        for v in (a, b):
+            first = (t == 'gMonthDay' and v.mo == 1 and v.d == 1) or (t == 'gDay' and v.d == 1) or (t == 'gMonth' and v.mo == 1)
+            if first and (v.tz is None or v.tz > 0): raise Unsure('recurring-g-type-leaves-its-period')
+            last = (t == 'gMonthDay' and v.mo == 12 and v.d == 31) or (t == 'gDay' and v.d == 31) or (t == 'gMonth' and v.mo == 12)
+            if last and v.tz is None: raise Unsure('recurring-g-type-leaves-its-period')
+        if t == 'gDay' and (a.d > 28 or b.d > 28): pass
     if t == 'time' and (a.tz is not None or b.tz is not None):
         # order is that of dateTime "using an arbitrary date": only sure when normalisation does not leave the day
         for v in (a, b):
@@ -323,13 +335,15 @@ def cmp_datetime(a, b):
         x, y = dt_instant(a), dt_instant(b)
         return LT if x < y else GT if x > y else EQ
     if a.tz is not None:        # P has a zone, Q has not
-        p = dt_instant(a)
-        if p < dt_instant(b, 14 * 60): return LT
-        if p > dt_instant(b, -14 * 60): return GT
+        p = dt_instant(a); lo = dt_instant(b, 14 * 60); hi = dt_instant(b, -14 * 60)
+        if p < lo: return LT
+        if p > hi: return GT
+        if p in (lo, hi) and not KNOWN_OFF: raise Unsure('known:C09-datetime-window-edge-equal')     # finding: exactly 14:00 apart is treated as equal / ordered
         return INDET
-    q = dt_instant(b)
-    if dt_instant(a, -14 * 60) < q: return LT
-    if dt_instant(a, 14 * 60) > q: return GT
+    q = dt_instant(b); lo = dt_instant(a, 14 * 60); hi = dt_instant(a, -14 * 60)
+    if hi < q: return LT
+    if lo > q: return GT
+    if q in (lo, hi) and not KNOWN_OFF: raise Unsure('known:C09-datetime-window-edge-equal')
     return INDET
 
 def _fmt_year(y):
@@ -757,8 +771,57 @@ FRACS = [None, None, None, '0', '000', '5', '50', '123', '001', '999', '12345678
 ZONES = ['', '', '', 'Z', 'Z', '+00:00', '-00:00', '+14:00', '-14:00', '+14:01', '+13:59', '-13:59', '+15:00', '+05:30', '-08:00', '+12:00', '-12:00', '-11:59', '+01:00', '-01:00', '+1:00', '+0100', 'z', '+24:00', '+00:60']
 def _w(lst, good): return st.sampled_from(lst[:good] * 6 + lst)       # bias towards the valid prefix of each table
 
+CARRY_BOUNDARIES = [(2002, 1, 1), (2000, 1, 1), (2001, 1, 1), (1970, 1, 1), (2100, 1, 1), (10000, 1, 1), (2, 1, 1), (2000, 3, 1), (2001, 3, 1), (2004, 3, 1), (1900, 3, 1),
+                    (2100, 3, 1), (2000, 2, 29), (2001, 2, 1), (2001, 5, 1), (2001, 12, 1), (2001, 7, 1), (2001, 6, 15), (-4, 1, 1), (-100, 7, 1), (9999, 12, 31)]
+CARRY_DELTAS = [-840, -839, -720, -600, -300, -90, -30, -1, 0, 0, 1, 30, 90, 300, 330, 600, 720, 839, 840]      # minutes from the boundary (local time)
+CARRY_ZONES = [None, 0, 840, -840, 839, -839, 720, -720, 300, -300, 330, -330, 60, -60, 1, -1, 600, -600]
+
+def fmt_zone(z):
+    if z is None: return ''
+    if z == 0: return 'Z'
+    return '%s%02d:%02d' % ('-' if z < 0 else '+', abs(z) // 60, abs(z) % 60)
+
+def carry_literal(t, boundary, delta, zone, frac=None, h24=False):
+    """literal of type t whose local value lies `delta` minutes from 00:00 of `boundary` (astronomical-free: years as written, no year 0)"""
+    y, mo, d = boundary
+    ya = y if y > 0 else y + 1
+    mins = delta
+    days = days_from_civil(ya, mo, d) + mins // 1440; mins %= 1440
+    yy, mm, dd = civil_from_days(days)
+    if yy <= 0: yy -= 1
+    hh, mi = mins // 60, mins % 60
+    sec = '00' + ('.' + frac if frac else '')
+    if h24 and hh == 0 and mi == 0 and not frac and t in ('dateTime', 'time'):
+        yb, mb, db = civil_from_days(days - 1)
+        if yb <= 0: yb -= 1
+        if t == 'time' or (yb > 0) == (yy > 0): yy, mm, dd, hh = yb, mb, db, 24
+    Y = ('-' if yy < 0 else '') + '%04d' % abs(yy)
+    tm = '%02d:%02d:%s' % (hh, mi, sec)
+    body = {'dateTime': '%s-%02d-%02dT%s' % (Y, mm, dd, tm), 'date': '%s-%02d-%02d' % (Y, mm, dd), 'time': tm, 'gYearMonth': '%s-%02d' % (Y, mm), 'gYear': Y,
+            'gMonthDay': '--%02d-%02d' % (mm, dd), 'gDay': '---%02d' % dd, 'gMonth': '--%02d' % mm}[t]
+    return body + fmt_zone(zone)
+
+@st.composite
+def gen_carry(draw, t, boundary=None):
+    """values within 14 h of a day / month / year boundary combined with zone offsets of both signs: time-zone normalisation
+    (and the +-14:00 window of the zoned/unzoned comparison) has to carry or borrow across the boundary"""
+    b = boundary or draw(st.sampled_from(CARRY_BOUNDARIES))
+    delta = draw(st.sampled_from(CARRY_DELTAS))
+    if t not in ('dateTime', 'time'): delta = draw(st.sampled_from([-1440, -1, 0, 0, 0, 1439, 1440]))       # the day before / the boundary day / the day after
+    z = draw(st.sampled_from(CARRY_ZONES))
+    frac = draw(st.sampled_from([None, None, None, '5', '999'])) if t in ('dateTime', 'time') else None
+    lit = carry_literal(t, b, delta, z, frac, draw(st.integers(0, 5)) == 0)
+    return lit, ['bd:zone-carry', 'bd:zone' if z else 'bd:zone-none']
+
+@st.composite
+def carry_group(draw, t, n=3):
+    """n literals of type t around ONE boundary (zoned and unzoned mixed): pairs inside / at the edge of the +-14 h window"""
+    b = draw(st.sampled_from(CARRY_BOUNDARIES))
+    return [draw(gen_carry(t, b))[0] for _ in range(n)]
+
 @st.composite
 def gen_datetime(draw, t):
+    if draw(st.integers(0, 3)) == 0: return draw(gen_carry(t))
     y = draw(_w(YEARS, 18)); mo = draw(_w(MONTHS, 9)); d = draw(_w(DAYS, 6)); h = draw(_w(HOURS, 5)); mi = draw(_w(MINS, 3)); s = draw(_w(SECS, 3))
     fr = draw(st.sampled_from(FRACS)); z = draw(_w(ZONES, 18))
     if h == '24' and draw(st.integers(0, 3)) != 0: mi, s = '00', '00'; fr = draw(st.sampled_from([None, '0', '000']))
@@ -921,7 +984,7 @@ def variant(draw, tn, lit):
         try: v = parse_datetime(k, lit)
         except (Invalid, Unsure): return lit
         # same instant in another zone, or trailing zeros in the fraction
-        if v.tz is not None and k == 'dateTime' and v.h != 24 and v.y > 1 and v.y < 9999:
+        if v.tz is not None and k == 'dateTime' and v.h != 24 and v.y > 1 and v.y < 99999:
             ntz = draw(st.sampled_from([0, 60, -60, 330, -480, 840, -840, 14 * 60 - 1]))
             secs = v.h * 3600 + v.mi * 60 + (ntz - v.tz) * 60
             days = days_from_civil(v.y, v.mo, v.d) + secs // 86400; secs %= 86400
@@ -930,6 +993,15 @@ def variant(draw, tn, lit):
             return '%04d-%02d-%02dT%02d:%02d:%s%s' % (y, mo, d, secs // 3600, (secs // 60) % 60, _fmt_sec(v.s), z)
         m = re.match(r'((?:.*T)?[0-9]{2}:[0-9]{2}:[0-9]{2})(\.[0-9]+)?(Z|[+-][0-9]{2}:[0-9]{2})?\Z', lit)
         if m: return m.group(1) + ((m.group(2) or '.') + '0') + (m.group(3) or '')
+        return lit
+    if k == 'date':
+        try: v = parse_datetime(k, lit)
+        except (Invalid, Unsure): return lit
+        if v.tz is not None and abs(v.tz) >= 600 and 1 < v.y < 99999:          # same starting instant: D+14:00 = (D-1)-10:00
+            sh = -1 if v.tz > 0 else 1
+            y, mo, d = civil_from_days(days_from_civil(v.y, v.mo, v.d) + sh)
+            ntz = v.tz - 1440 if v.tz > 0 else v.tz + 1440
+            return '%04d-%02d-%02d%s%02d:%02d' % (y, mo, d, '-' if ntz < 0 else '+', abs(ntz) // 60, abs(ntz) % 60)
         return lit
     if k == 'duration':
         return {'P1Y': 'P12M', 'P12M': 'P1Y', 'P1D': 'PT24H', 'PT24H': 'P1D', 'PT1440M': 'PT24H', 'PT86400S': 'P1D', 'P0Y': 'PT0S', 'PT0S': 'P0M'}.get(lit, lit)
